@@ -75,8 +75,17 @@ Definition run_0101 (input impl : sx) : sx :=
         if success then (if Converge.identity_faithful p s || merge then converged merge p s dest else true)
         else false in   (* a fault-free transfer of a valid view must succeed *)
       let diag := if success then converged_diag merge p s dest else [] in
-      (* the level-A model's prediction, judged whenever the specification is judged *)
-      let judged := success && ((faithful && Converge.identity_faithful p s) || merge) in
+      (* the level-A model's prediction is judged on EVERY successful transfer — also on the identity
+         collisions that the specification excludes by hypothesis: there the model predicts that the
+         old bytes stay (unrestricted_convergence_refuted), and so does the code *)
+      let judged := success in
+      (* every case lies in the domain of the theorems: both listings are wf_entries, and wherever the
+         oracle is judged (Converge.identity_faithful) the hypothesis of diff_apply_converges holds *)
+      let in_domain := match input with
+                       | SL [_; _; _; _; _; _; _; _; _] =>      (* generated case (hand-written corpus cases may lie outside) *)
+                         wf_entries_b p && wf_entries_b s
+                         && (merge || negb (Converge.identity_faithful p s) || faithful)
+                       | _ => true end in
       let pred := view_x p (receive_t (fun _ => c01_sentinel) (if merge then Merge else Fresh) differ p s) in
       let mdiff := if judged then c01_model_diff unpriv pred (map obs_of_raw dest) else [] in
       (* the generator's count of identity collisions (cases excluded by hypothesis) is the glue's decision *)
@@ -84,6 +93,7 @@ Definition run_0101 (input impl : sx) : sx :=
                      | SL [_; _; _; _; _; _; _; _; SN f] => Bool.eqb (negb (N.eqb f 0)) (negb (Converge.identity_faithful p s))
                      | _ => true end in
       let model := if negb flag_ok then SL [SB [99;111;108;108;105;115;105;111;110;45;102;108;97;103]]   (* "collision-flag" *)
+                   else if negb in_domain then SL [SB [110;111;116;45;119;102]]                           (* "not-wf" *)
                    else match mdiff with [] => impl | _ => SL (SB [109;111;100;101;108] :: mdiff) end in   (* "model" *)
       (* known finding: an unprivileged receiver cannot set user.* xattrs on a file it created
          without owner write permission (LSetxattr fails with EACCES, the error is ignored) *)
